@@ -56,13 +56,17 @@ def pcm_of(tree):
 
 
 def needed_sectors(vol, names):
-    """sectors (of the partition) a file depends on: header 0-2, its directory, its data"""
+    """whole sectors (of the partition) a file depends on: header 0-2 and its data; plus the byte offset up to which the
+    directory must be readable: the table entries up to and including the file's own entries (the table is walked in order)"""
     import akai_writer as AW
-    s = {0, 1, 2} | set(vol.dir_sectors)
-    for f in vol.files:
+    s = {0, 1, 2}
+    last = -1
+    for k, f in enumerate(vol.files):
         if AW.displayed_name(f.name) in names:
             s |= set(f.sectors)
-    return s
+            last = max(last, k)
+    dir_bytes = vol.dir_sectors[0] * SECTOR + 24 * (last + 1)
+    return s, dir_bytes
 
 
 def w_image(pid, tier, seed, job):
@@ -84,6 +88,8 @@ def w_image(pid, tier, seed, job):
         for d in (-1, 0, 1, SECTOR // 2):
             cuts.add(s * SECTOR + d)
     cuts |= {0, 1, 100, 201, 202, 1000, 1802, 5000, 24573, 24574, 24575}
+    d0 = vol.dir_sectors[0] * SECTOR
+    cuts |= {d0 + 24 * k + d for k in range(len(vol.files) + 2) for d in (0, 9, 10, 23)} | {d0 + 300, d0 + 5000}
     for _ in range(10 if tier == "quick" else 60):
         cuts.add(rng.randrange(0, len(img)))
     names = [AW.displayed_name(f.name) for f in vol.files]
@@ -124,11 +130,11 @@ def w_image(pid, tier, seed, job):
         if wrap:
             continue
         for nm, src in outs:
-            need = needed_sectors(vol, [names[i] for i in src])
-            if all((s + 1) * SECTOR <= c for s in need):
+            need, dir_bytes = needed_sectors(vol, [names[i] for i in src])
+            if all((s + 1) * SECTOR <= c for s in need) and dir_bytes <= c:
                 p = "A/VOL/%s.wav" % nm
                 c2 = dict(case, file=p)
-                ctx.require("a file whose header, directory and data sectors all lie before the cut is exported complete", c2,
+                ctx.require("a file whose header sectors, directory entries and data sectors all lie before the cut is exported complete", c2,
                             p in got and got[p][0] and got[p][2] == full[p][2], {"reported": sorted(got), "exc": r.exc_name})
     return ctx.dump()
 
